@@ -19,6 +19,7 @@ echo "$id: demo-without=$without (want 0) demo-with=$with (want !=0) suite-with=
 if [ $without -eq 0 ] && [ $with -ne 0 ] && [ $suite -eq 0 ]; then
   mkdir -p "$dst"; cp "$wt/_seed/patch.diff" "$wt/_seed/seed_demo_test.go" "$dst/"
   jq --arg c "scripts/seedimport.sh: fresh worktree of /repo HEAD: demo passes without the change (exit $without), fails with it (exit $with), go test ./... passes with it (exit $suite)" '. + {confirmed_by: $c}' "$wt/_seed/meta.json" > "$dst/meta.json"
+  printf 'builds_with_change: yes\nsuite_passes_with_change: yes\ndemo_fails_with_change: yes\ndemo_passes_without_change: yes\n(scripts/seedimport.sh, fresh scratch worktree of /repo HEAD)\n' > "$dst/confirmation.txt"
   echo "$id: kept"
 else
   echo "$id: NOT kept"; exit 1
